@@ -132,3 +132,8 @@ Fixpoint jv_eqb (a b : jv) {struct a} : bool :=
   end.
 
 Definition chk_out (c : okind * av * jv) : bool := let '(k, a, j) := c in jv_eqb (out k a) j.
+
+(* reader followed by writer on a written value: what write(read(j)) gives in
+   Python for the reader expression the shape names (env: every ID is found) *)
+Definition chk_rt (c : okind * ikind * lkind * jv * jv) : bool :=
+  let '(ko, ki, l, j, expected) := c in jv_eqb (out ko (inn (fun _ => 0) ki l (Some j))) expected.
